@@ -1,39 +1,7 @@
-(* vmodel: runs the extracted Coq model on the same operation scripts as vdrive and prints the
-   same canonical observation lines.  Hand-written glue: script parsing, Z<->int, printing. *)
 open Model
-
-let rec pos_of_int n = if n = 1 then XH else if n land 1 = 0 then XO (pos_of_int (n lsr 1)) else XI (pos_of_int (n lsr 1))
-let z_of_int n = if n = 0 then Z0 else if n > 0 then Zpos (pos_of_int n) else Zneg (pos_of_int (-n))
-let rec int_of_pos = function XH -> 1 | XO p -> 2 * int_of_pos p | XI p -> 2 * int_of_pos p + 1
-let int_of_z = function Z0 -> 0 | Zpos p -> int_of_pos p | Zneg p -> - (int_of_pos p)
-let zs z = string_of_int (int_of_z z)
-
-type args = { pos : string list; kv : (string * string) list }
-let parse_line line =
-  let toks = List.filter (fun s -> s <> "") (String.split_on_char ' ' line) in
-  match toks with
-  | [] -> None
-  | op :: rest ->
-    let pos = ref [] and kv = ref [] in
-    List.iter (fun t ->
-      match String.index_opt t '=' with
-      | Some i when i > 0 -> kv := (String.sub t 0 i, String.sub t (i+1) (String.length t - i - 1)) :: !kv
-      | _ -> pos := t :: !pos) rest;
-    Some (op, { pos = List.rev !pos; kv = !kv })
-let has a k = List.mem_assoc k a.kv
-let str a k d = try List.assoc k a.kv with Not_found -> d
-let num a k d = try int_of_string (List.assoc k a.kv) with Not_found -> d
-(* times arrive as whole seconds (possibly written with .0); the model's unit is the second *)
-let tnum s = int_of_float (float_of_string s)
-
-let out = ref stdout
-let emit s = output_string !out s; output_char !out '\n'
-
-let obs_filter : string list option ref = ref None   (* event prefixes to print; None = all *)
-let ev_on p = match !obs_filter with None -> true | Some l -> List.mem p l
+open Vcore
 
 (* ---------------- checkable fixture (C01 ...) ---------------- *)
-let now = ref 0
 let ck_cfg = ref { c_kind = KHost; c_max = z_of_int 3; c_volatile = false }
 let ck_st = ref pending
 let sstate_of_int = function 0 -> SOK | 1 -> SWarning | 2 -> SCritical | _ -> SUnknown
@@ -71,43 +39,6 @@ let op_cr a =
     emit (Buffer.contents b)
   end
 
-(* ---------------- dispatch ---------------- *)
-let handle op a =
-  match op with
-  | "case" -> emit ("case " ^ List.hd a.pos)
-  | "end" -> emit "end"
-  | "obs" -> obs_filter := Some a.pos
-  | "now" -> now := tnum (List.hd a.pos)
-  | "ck_new" -> op_ck_new a
-  | "cr" -> op_cr a
-  | _ -> prerr_endline ("vmodel: unknown op " ^ op); exit 2
-
-(* ---------------- oracle mode: evaluate the extracted property oracle on IMPLEMENTATION traces ------ *)
-let read_cases file =
-  (* -> list of (case id, lines) in file order *)
-  let ic = open_in file in
-  let res = ref [] and cur = ref None and acc = ref [] in
-  (try while true do
-    let l = input_line ic in
-    if String.length l > 5 && String.sub l 0 5 = "case " then begin
-      cur := Some (int_of_string (String.trim (String.sub l 5 (String.length l - 5)))); acc := [] end
-    else if l = "end" then begin
-      (match !cur with Some id -> res := (id, List.rev !acc) :: !res | None -> ()); cur := None end
-    else if !cur <> None then acc := l :: !acc
-  done with End_of_file -> ());
-  close_in ic; List.rev !res
-
-let tok_val toks k =
-  let pfx = k ^ "=" in
-  let n = String.length pfx in
-  let rec go = function
-    | [] -> None
-    | t :: r -> if String.length t >= n && String.sub t 0 n = pfx then Some (String.sub t n (String.length t - n)) else go r in
-  go toks
-let toks_of l = List.filter (fun s -> s <> "") (String.split_on_char ' ' l)
-let is_bad_line l =
-  let starts p = String.length l >= String.length p && String.sub l 0 (String.length p) = p in
-  starts "CRASH" || starts "HANG" || starts "NOT-RUN" || starts "HARNESS-ERROR" || starts "NOEND" || starts "MISSING"
 
 let oracle_c01_case script trace =
   (* script: op lines; trace: implementation observation lines *)
@@ -155,31 +86,8 @@ let oracle_c01_case script trace =
      | None -> None
      | Some idx -> Some (Printf.sprintf "accepted-result=%s violates-C01" (zs idx)))
 
-let oracles : (string * (string list -> string list -> string option)) list ref = ref [ ("C01", oracle_c01_case) ]
-
-let run_oracle pid scriptf tracef outf =
-  let f = try List.assoc pid !oracles with Not_found -> (prerr_endline ("no oracle for " ^ pid); exit 2) in
-  let scripts = read_cases scriptf and traces = read_cases tracef in
-  let oc = open_out outf in
-  List.iter (fun (id, sl) ->
-    let tl = try List.assoc id traces with Not_found -> ["MISSING"] in
-    match f sl tl with
-    | None -> Printf.fprintf oc "oracle %d ok\n" id
-    | Some m -> Printf.fprintf oc "oracle %d %s\n" id m) scripts;
-  close_out oc
 
 let () =
-  if Array.length Sys.argv > 1 && Sys.argv.(1) = "--oracle" then begin
-    run_oracle Sys.argv.(2) Sys.argv.(3) Sys.argv.(4) Sys.argv.(5); exit 0 end;
-  let ic = open_in Sys.argv.(1) in
-  if Array.length Sys.argv > 2 then out := open_out Sys.argv.(2);
-  (try
-    while true do
-      let line = input_line ic in
-      if String.length line > 0 && line.[0] <> '#' then
-        match parse_line line with
-        | Some (op, a) -> handle op a
-        | None -> ()
-    done
-  with End_of_file -> ());
-  flush !out
+  register_op "ck_new" op_ck_new;
+  register_op "cr" op_cr;
+  register_oracle "C01" oracle_c01_case
